@@ -1,29 +1,18 @@
-"""Per-property configuration of bin/check (see vlib.standard_check for the keys)."""
+"""Per-property configuration of bin/check: every bin/propcfg/cNN.py defines CFG = dict(...)
+(see vlib.standard_check for the keys). NOT_CLAIMED gives reasons for properties without a check."""
+import importlib
+import os
+import sys
 
 PROPS = {}
-NOT_CLAIMED = {}   # property id -> reason (only for properties that will not get a check)
+NOT_CLAIMED = {}
 
-
-def reg(**kw):
-    PROPS[kw["prop"]] = kw
-
-
-reg(prop="C10", level="proof", harness="c10",
-    props_files=["theories/Props/C10.v"], corr_file="theories/Corr/C10.v", corr_module="Corr.C10",
-    groups={"readme": True, "odd": False},
-    design_ref="DESIGN.md 6.10",
-    technique="Coq proof (state machine = last-relevant-directive specification, by induction over the sorted directive list) + "
-              "end-to-end correspondence of the Gallina parse+mask model with lint results",
-    level_text="C10_exact / C10_filter are closed Coq theorems for every directive list and violation: the mask computed by the "
-               "modelled loop equals the documented 'last relevant range directive wins, line directives cover their line' "
-               "specification. The model (comment parsing, stable sort, cut-off, state machine, filter) is tied to the code on "
-               "every run by predicting the noqa-on violation list from the noqa-off list and the real comment leaves.",
-    level_note="Trusted: Coq kernel; the model is hand-written (tie = sampled correspondence, ~1.7k files quick / ~22k thorough); "
-               "Rust trim()/split() modelled for ASCII; rule bodies are not modelled (their output is the recorded noqa-off list).",
-    rule="generated SQL files (2-7 lines of statements that violate CP01/LT01/AL02/...) with README-form "
-         "noqa directives (group readme) or malformed/odd directives (group odd) on random lines, 13 dialects, "
-         "6 rule selections; each linted with noqa off and on; the Coq model of parse+mask is run on the real "
-         "comment leaves and the noqa-off violation list and must predict the noqa-on list exactly. "
-         "non-trivial = at least one violation is masked; distinct = distinct (comments, violations) tuples",
-    assumptions=["comment texts are ASCII (Rust trim() is modelled for ASCII whitespace only; non-ASCII comments are skipped and counted)",
-                 "the violation list with disable_noqa is parse violations followed by rule violations"])
+_d = os.path.join(os.path.dirname(os.path.abspath(__file__)), "propcfg")
+sys.path.insert(0, _d)
+for _f in sorted(os.listdir(_d)):
+    if _f.endswith(".py") and _f[0] == "c":
+        _m = importlib.import_module(_f[:-3])
+        if hasattr(_m, "CFG"):
+            PROPS[_m.CFG["prop"]] = _m.CFG
+        if hasattr(_m, "NOT_CLAIMED"):
+            NOT_CLAIMED.update(_m.NOT_CLAIMED)
